@@ -78,6 +78,9 @@ TNext ==
          [] e.ev = "rec" -> TRec(e)
          [] e.ev = "snapshot" -> TSnapshot(e)
          [] e.ev = "merge" -> TMerge(e)
+         [] e.ev = "report_file" ->   \* Reporter::report(): the persisted file holds exactly the merged per-address sums
+              /\ IF e.readable /\ e.rows = rep /\ (e.expect_file => e.files = 1) /\ (~e.expect_file => e.files = 0) THEN TRUE ELSE Bad
+              /\ UNCHANGED <<limit, qcap, tracked, cnt, ovf, agg, queue, rep, popped, nev>>
          [] e.ev = "report" -> Report
          [] OTHER -> Bad /\ UNCHANGED <<limit, qcap, tracked, cnt, ovf, agg, queue, rep, popped, nev>>
     /\ l' = l + 1
